@@ -64,7 +64,8 @@ type scene struct {
 	ms            *mesh.Mesh
 	v, p, q, x, u *world.Node
 	rng           *rand.Rand
-	annFrame      []byte // a genuine announcement of P as it reaches V
+	annFrame      []byte     // a genuine announcement of P as it reaches V
+	priv          netip.Addr // a known router with a privacy address (no keys, never routable)
 }
 
 func newScene(rng *rand.Rand) *scene {
@@ -83,6 +84,11 @@ func newScene(rng *rand.Rand) *scene {
 	}
 	px := s.x.ID.PublicAddress
 	_ = s.v.St.AddRouter(&px)
+	pu := s.u.ID.PublicAddress
+	_ = s.v.St.AddRouter(&pu) // known to the victim, but no keys with it and no route to it
+	pp := world.NewPrivacyIdentity().PublicAddress
+	_ = s.v.St.AddRouter(&pp)
+	s.priv = pp.IP
 	// end-to-end keys between V and P, Q, X
 	for _, n := range []*world.Node{s.p, s.q, s.x} {
 		pn := n.ID.PublicAddress
@@ -392,6 +398,15 @@ func (s *scene) gen(kind string, n int) (out [][]byte, notes []string) {
 			}
 			b := append(append([]byte(nil), base[:apxFrom]...), na...)
 			add(b, nil, kind)
+		case "traffic-nokeys":
+			// traffic that claims a router the victim knows but shares no end-to-end keys with and has no route to:
+			// the frame cannot be unsealed AND the "no encryption keys" error cannot be sent back
+			src := s.u.ID.IP
+			if i%2 == 0 {
+				src = s.priv // a privacy address is never routable: the error ping back to it cannot be sent
+			}
+			b, err := s.seal(src, V, frame.NetworkTraffic, nil, ipv6(src, V, 6, rng.Intn(60), 6), nil)
+			add(b, err, kind)
 		case "traffic-short", "traffic-version", "traffic-mismatch", "traffic-proto":
 			var inner []byte
 			switch kind {
@@ -491,6 +506,7 @@ func trunc(s string) string {
 // deliver feeds one raw frame from P's link into V and classifies what happened.
 func (s *scene) deliver(from *world.Node, data []byte) (outcome, detail string, dbl bool) {
 	s.ms.W.Inflight = nil
+	s.v.Rt.VerifAge(11 * time.Second) // error pings are limited to one per code, peer and 10 s: every input meets an expired cool-down
 	res, err := s.ms.W.DeliverRaw(from, s.v, data)
 	drainTun(s.v)
 	outcome = "handled"
